@@ -589,6 +589,13 @@ func enumerate(thorough bool) []CaseSpec {
 			cs.SOs = soCtor[kind]
 			cs.SOLinks = [][2]int{{0, 0}, {0, 1}, {1, 1}}
 			add(cs)
+			// ... attached in CROSSED order: processor 1 takes instance 1 first, then instance 0 (the position of a
+			// shared object in a processor's list is that processor's local index for it: order is content)
+			cx := twoProc(ops, ops, topologies[0])
+			cx.Class, cx.Name = "shared", kind+"/two-instances-attached-in-crossed-order"
+			cx.SOs = soCtor[kind]
+			cx.SOLinks = [][2]int{{0, 0}, {0, 1}, {1, 1}, {1, 0}}
+			add(cx)
 		}
 	}
 	{ // every kind at once
